@@ -1,4 +1,5 @@
-CONSTANTS MaxHist = 12
+CONSTANTS Carrier = "rtsp"
+ MaxHist = 12
  EmitAt = 12
 INIT Init
 NEXT Next
